@@ -48,7 +48,7 @@ ASSUMPTIONS = [
     "transport back-pressure on the H2Connection (pauseProducing from the TCP transport) and RST_STREAM are outside the statement and not in the alphabet",
 ]
 MIN = {"quick": {"states": 160000, "nontrivial": 130000, "outcomes": 10, "closures": 280000},
-       "thorough": {"states": 300000, "nontrivial": 150000, "outcomes": 10}}
+       "thorough": {"states": 1300000, "nontrivial": 1000000, "outcomes": 10, "closures": 2300000}}
 
 LEVEL_TEXT = ("bounded model checking: every history up to the stated depth over the stated alphabet and configurations is executed on the real "
               "H2Connection/H2Stream/http.Request objects; safety is decided by an exact window ledger plus the h2 client, resumption and "
